@@ -327,6 +327,9 @@ type SVal struct {
 	Clo   *Closure // statically known closure (KFunc)
 	Imm   bool     // pointer rooted at an immutable global
 	Off   string   // pointer to array: element offset inside the backing array ("" = 0)
+	// KArray of a small byte array known in packed form: the bit-vector of 8*len bits whose bytes
+	// (most significant first) are the elements; Term is then the array built from it
+	Packed string
 }
 
 func (v *SVal) String() string {
@@ -475,7 +478,8 @@ func (w *World) leaves(t types.Type) []Leaf {
 		var out []Leaf
 		for i := 0; i < st.NumFields(); i++ {
 			for _, l := range w.leaves(st.Field(i).Type()) {
-				out = append(out, Leaf{fmt.Sprintf("%d.%s", i, l.Path), l.Sort})
+				// same naming as buildVal: a scalar field i is "i", a leaf p of a composite field i is "i.p"
+				out = append(out, Leaf{strings.TrimSuffix(fmt.Sprintf("%d.%s", i, l.Path), "."), l.Sort})
 			}
 		}
 		return out
